@@ -14,6 +14,7 @@ class Result:
         self.ret = None
         self.markers = {}       # key text -> lin
         self.offset = None      # final advance of `offset` relative to its initial value (lin) or None
+        self.store_end = None   # end of the last `wire[a:b] = ...` store relative to the initial offset
         self.env = {}
 
 
@@ -78,6 +79,15 @@ def run(fn, markers_in=None):
 
     def stmt(s):
         if isinstance(s, ast.Expr):
+            c = s.value
+            # a nested model written in place: `<model>.encode(wire, <pos>, <markers>)` fills <model>.encoded_length(<markers>) bytes
+            if isinstance(c, ast.Call) and isinstance(c.func, ast.Attribute) and c.func.attr == 'encode' and len(c.args) >= 3 \
+                    and isinstance(c.args[0], ast.Name) and c.args[0].id == 'wire':
+                try:
+                    end = _add(expr(c.args[1], env, markers), {f'{ast.unparse(c.func.value)}.encoded_length({ast.unparse(c.args[2])})': 1})
+                    res.store_end = _add(end, {'offset0': 1}, -1)
+                except NotLinear:
+                    pass
             return
         if isinstance(s, ast.Assign) and len(s.targets) == 1:
             t = s.targets[0]
@@ -93,7 +103,13 @@ def run(fn, markers_in=None):
                 except NotLinear:
                     markers[ast.unparse(t.slice)] = {f'markers[{ast.unparse(t.slice)}]': 1}
                 return
-            return      # stores into wire / attributes: no size effect tracked here
+            if isinstance(t, ast.Subscript) and isinstance(t.value, ast.Name) and t.value.id == 'wire' and isinstance(t.slice, ast.Slice) \
+                    and t.slice.upper is not None:
+                try:
+                    res.store_end = _add(expr(t.slice.upper, env, markers), {'offset0': 1}, -1)
+                except NotLinear:
+                    pass
+            return      # stores into attributes: no size effect tracked here
         if isinstance(s, ast.AugAssign) and isinstance(s.target, ast.Name):
             cur = env.get(s.target.id, {s.target.id: 1})
             env[s.target.id] = _add(cur, expr(s.value, env, markers), 1 if isinstance(s.op, ast.Add) else -1)
@@ -127,4 +143,10 @@ def run(fn, markers_in=None):
     res.markers = markers
     off = env.get('offset', {})
     res.offset = _add(off, {'offset0': 1}, -1)
+    # bytes written: the cursor advance, or the end of the last slice store when that lies beyond the cursor
+    res.written = res.offset
+    if res.store_end is not None:
+        d = _add(res.store_end, res.offset, -1)
+        if d and all(c > 0 for c in d.values()):
+            res.written = res.store_end
     return res
